@@ -2,5 +2,7 @@
      Helpers_conv_proofs    direct convolution, convolve_many, sum-of-discrete-uniforms pmf
      Helpers_search_proofs  find_nearest (sorted / unsorted), min_of_dict
      Helpers_dict_proofs    math.isclose, dict_match (symmetry, tolerance / presence semantics), dict key equality
-     Helpers_norm_proofs    ensure_* normalisers, sorters, change_dict_key, is_integer, rounding, compare_unhashable_lists *)
-From SV Require Export Alg.Helpers_conv_proofs Alg.Helpers_search_proofs Alg.Helpers_dict_proofs Alg.Helpers_norm_proofs.
+     Helpers_norm_proofs    ensure_* normalisers, sort_dict_by_keys, change_dict_key, is_integer, rounding, compare_unhashable_lists
+     Helpers_nested_proofs  sort_nested_dict_by_keys
+     Helpers_build_proofs   build_node_data_dict *)
+From SV Require Export Alg.Helpers_conv_proofs Alg.Helpers_search_proofs Alg.Helpers_dict_proofs Alg.Helpers_norm_proofs Alg.Helpers_nested_proofs Alg.Helpers_build_proofs.
